@@ -8438,7 +8438,15 @@ eval_node_type_with_predicate(const struct lyxp_expr *exp, uint32_t *tok_idx, en
             LY_CHECK_RET(rc);
         }
         if (!strncmp(&exp->expr[exp->tok_pos[*tok_idx]], "node", 4)) {
-            rc = xpath_pi_node(set, axis, options);
+            if (axis != LYXP_AXIS_ATTRIBUTE) {
+                rc = xpath_pi_node(set, axis, options);
+            } else if (options & LYXP_SCNODE_ALL) {
+                /* all the attributes, just like "@*" */
+                set_scnode_clear_ctx(set, LYXP_SET_SCNODE_ATOM_NODE);
+                rc = LY_SUCCESS;
+            } else {
+                rc = moveto_attr(set, NULL, NULL, options);
+            }
         } else {
             assert(!strncmp(&exp->expr[exp->tok_pos[*tok_idx]], "text", 4));
             rc = xpath_pi_text(set, axis, options);
